@@ -164,16 +164,26 @@ pub fn log_narrow<const B: usize, const W: usize>(nd: &mut Nd) {
     let v = (nd.u8() as u64) & m;
     let b = if W == 2 { 10 } else { (nd.u8() as u64) & m };
     // floor(log_b(v)) by repeated multiplication (v >= 1, b >= 2)
+    // (unrolled by macro: a loop would raise the harness-wide unwinding bound, which is also the recursion bound of the
+    //  TryFrom<f64> call inside `log` - 2^bound copies of its body)
     let mut want = 0usize;
     let mut p = b;
-    let mut i = 0;
-    while i < B {
-        if b >= 2 && p <= v {
-            want += 1;
-            p *= b; // <= 2^16
-        }
-        i += 1;
+    macro_rules! step {
+        () => {
+            if b >= 2 && p <= v {
+                want += 1;
+                p *= b; // <= 2^16
+            }
+        };
     }
+    step!();
+    step!();
+    step!();
+    step!();
+    step!();
+    step!();
+    step!();
+    step!();
     let uv = Uint::<B, 1>::from_limbs([v]);
     cov!(nd, "at-max", v == m && b >= 3);
     cov!(nd, "exact-power", b >= 3 && want >= 2 && p == v * b);
